@@ -7,6 +7,11 @@ from propchecks import common
 
 RESERVED_RE = re.compile(r'(?<![\w$-])(then|fi|do|done|esac|in|elif|else)(?![\w-])')
 
+# (operator, delimiter, body lines): no body line equals the delimiter (for <<- after stripping leading tabs), so the document is unterminated
+HEREDOC_OPEN = [('<<', 'E', ['\tE']), ('3<<', 'EOF', ['foo', '\tEOF']), ('0<<', 'E', ['\t\tE', 'E ']), ('<<', 'E', ['E ', ' E', 'EE', 'xE']),
+                ('<<-', 'E', [' E', '\t E', 'E x', '\tEE']), ('3<<-', 'E', [' \tE', 'E\t']), ('<<', 'E', []), ('<<', 'a-b', ['a-', '-b', 'a-b ']),
+                ('<<', 'E', ['x', '\\E']), ('1<<', 'E', ['\tE', '\tE'])]
+
 def edits(rng, s):
     """catalogue of syntax-breaking edits (candidates; confirmed by bash -n)"""
     out = []
@@ -34,12 +39,20 @@ def edits(rng, s):
     for m in re.finditer(r'(?<![<>&\d])(>>|>|<)(?![<>&(|])\s*[^\s<>|&;()]+', s):
         out.append(('redirect-without-target', s[:m.start()] + m.group(1) + ' ;' + s[m.end():]))
     out.append(('unterminated-heredoc', s.rstrip('\n') + ' <<NEVER\nbody\n'))
+    # unterminated here-documents whose body holds look-alikes of the delimiter line (judged by construction, see HEREDOC_OPEN: bash -n only
+    # warns about them): operator variants (fd prefix, <<-) x lines that differ from the delimiter by a tab, a blank, a prefix or a suffix
+    if '#' not in s.rstrip('\n').rsplit('\n', 1)[-1] and '<<' not in s:       # (appended to a base with a here-document of its own the text would land in that body)
+        for op, dl, body in rng.sample(HEREDOC_OPEN, 2):
+            t = s.rstrip('\n') + ' ' + op + dl + '\n' + '\n'.join(body)
+            out.append(('unterminated-heredoc:' + op, t + rng.choice(['', '\n'])))
     out.append(('stray-rparen', s.rstrip('\n') + ' )'))
     out.append(('stray-rbrace-group', '{ ' + s.rstrip('\n')))
     out.append(('unclosed-subshell', '( ' + s.rstrip('\n')))
     out.append(('unclosed-substitution', 'a $(' + s.rstrip('\n')))
     rng.shuffle(out)
-    return out[:12]
+    # the here-document family is kept whatever the sample
+    keep = [x for x in out if x[0].startswith('unterminated-heredoc:')]
+    return [x for x in out if not x[0].startswith('unterminated-heredoc:')][:12] + keep
 
 def bash_rejects(script):
     try:
@@ -89,11 +102,12 @@ def run(ctx):
         if ci != runner.outcome_class(m):
             corr_broken.append(dict(request=[req[0], req[1], req[2]], impl=i[:300], model=m[:300]))
         if ci in ('ok', 'ok-empty'):
-            if have_bash and not bash_rejects(e): continue       # the edit did not break the syntax
+            # (an unterminated here-document only earns a warning from bash -n: those edits are invalid by construction)
+            if have_bash and not kind.startswith('unterminated-heredoc:') and not bash_rejects(e): continue       # the edit did not break the syntax
             confirmed += 1
             ctxs = []
             if re.search(r'\$\([^)]*\n', e) or re.search(r'`[^`]*\n', e) or re.search(r'[<>]\([^)]*\n', e): ctxs.append('+multiline-substitution')
-            if kind == 'unterminated-heredoc' and re.search(r'[({]|\bdo\b|\bthen\b', e): ctxs.append('+heredoc-in-compound')
+            if kind.split(':')[0] == 'unterminated-heredoc' and re.search(r'[({]|\bdo\b|\bthen\b', e): ctxs.append('+heredoc-in-compound')
             # is the syntax error inside the operand of a ${...}?  (bashlex delimits ${...} at the first '}' and never looks inside)
             e2 = re.sub(r'\$\{[^}]*\}', 'X', e)
             if e2 != e and have_bash and not bash_rejects(e2): ctxs.append('+in-brace-operand')
